@@ -5,7 +5,8 @@ from . import histories, projlab, seqcase
 from . import specs as S
 
 
-def run_upgrade(prop, desc, max_k=60, scope='run_sql', with_rename=False):
+def run_upgrade(prop, desc, max_k=60, scope='run_sql', with_rename=False,
+                extra_args=None):
     rng = seqcase.rng_for(prop, 'upgrade', desc['seed'], desc['i'])
     two = rng.random() < 0.3
     h = histories.gen_upgrade(rng, two_apps=two, with_rename=with_rename)
@@ -19,8 +20,9 @@ def run_upgrade(prop, desc, max_k=60, scope='run_sql', with_rename=False):
         rows = seqcase.gen_rows(rng, h.specs[0], max_rows=3)
         proj.insert_rows(rows, 'base.db')
         res = proj.run('fault_loop', version=1, db='work.db',
-                       args={'base_db': proj.path('base.db'),
-                             'max_k': max_k, 'scope': scope},
+                       args=dict({'base_db': proj.path('base.db'),
+                                  'max_k': max_k, 'scope': scope},
+                                 **(extra_args or {})),
                        timeout=300)
         return h, res
     finally:
